@@ -157,6 +157,10 @@ func genC11(driver string, col *ev.Collector) func(*rapid.T) c11Case {
 		// the override leg does not generate them; Update does not resolve and keeps them.
 		cfg.UnknownReqs = driver != drvMavenOverride
 		cfg.DottedNames = os.Getenv("VERIF_GREM_DOTTED") != "" // off by default: package.json writer finding of C13
+		if driverSystem(driver) == universe.Maven {
+			// half of the Maven packages publish -SNAPSHOT / -M1 / -rc1 / .Final / -jre versions
+			cfg.MavenFlavours = 50
+		}
 		c := c11Case{Driver: driver, Scenario: universe.GenScenario(t, cfg)}
 		switch driver {
 		case drvMavenUpdate:
@@ -315,13 +319,21 @@ func propC11Fix(c c11Case) (ev.Outcome, error) {
 	}
 	cache := map[string]resolved{}
 	resolveCached := func(m universe.Manifest) (*resolve.Graph, error) {
-		k := string(m.Render())
+		k := ""
+		for _, f := range m.Files() {
+			k += f.Path + "\x00" + string(f.Data) + "\x00"
+		}
 		if r, ok := cache[k]; ok {
 			return r.g, r.err
 		}
 		g, err := w.ResolveModel(ctx, m, resOpts)
 		cache[k] = resolved{g, err}
 		return g, err
+	}
+	if c.Universe.System == universe.Maven {
+		if g0, err := resolveCached(c.Manifest); err == nil {
+			c11FlavourClasses(c, w.Index, g0, cls)
+		}
 	}
 	for _, it := range items {
 		ups := universe.UpdatesOf(it.p.PackageUpdates)
@@ -456,6 +468,17 @@ func propC11Fix(c c11Case) (ev.Outcome, error) {
 				if va.Compare(vb) > 0 && universe.LevelAllows(level, d) {
 					if !legit {
 						cls["decided_"+d.String()] = true
+						how := "_transitive"
+						if direct {
+							how = "_direct"
+						}
+						if f := vb.FlavourName(); f != "" {
+							cls["decided_from_"+f] = true
+							cls["decided_from_"+f+how] = true
+						}
+						if f := va.FlavourName(); f != "" {
+							cls["decided_to_"+f] = true
+						}
 					}
 					legit = true
 					if sub == full {
@@ -496,6 +519,71 @@ func propC11Fix(c c11Case) (ev.Outcome, error) {
 		}
 	}
 	return out(nontrivial), nil
+}
+
+// c11FlavourClasses labels a Maven case by the qualifier flavours of the versions that matter:
+// the flavours published in the universe, and the flavour of every node of the original graph
+// that some advisory affects (the versions the override strategy has to move away from), told
+// apart by direct / transitive and by whether the package also has a LOWER version that none
+// of the advisories affecting the node affects (the candidates a strategy must never pick).
+func c11FlavourClasses(c c11Case, ix *universe.Index, g *resolve.Graph, cls map[string]bool) {
+	for _, p := range ix.Packages {
+		for _, v := range p.Versions {
+			if f := v.V.FlavourName(); f != "" && f != "prerelease" {
+				cls["universe_has_flavoured_versions"] = true
+				cls["universe_has_"+f] = true
+			}
+		}
+	}
+	direct := map[string]bool{}
+	for _, d := range c.Manifest.Deps {
+		direct[d.Name] = true
+	}
+	eco := universe.Ecosystem(c.Universe.System)
+	for i, n := range g.Nodes {
+		if i == 0 {
+			continue
+		}
+		nv, ok := universe.ParseVer(n.Version.Version)
+		if !ok {
+			continue
+		}
+		f := nv.FlavourName()
+		if f != "" && f != "prerelease" {
+			cls["resolved_node_"+f] = true
+		}
+		var hit []universe.OSV
+		for _, o := range c.Vulns {
+			if universe.Affected(o, eco, n.Version.Name, n.Version.Version) {
+				hit = append(hit, o)
+			}
+		}
+		if len(hit) == 0 || f == "" || f == "prerelease" {
+			continue
+		}
+		how := "_transitive"
+		if direct[n.Version.Name] {
+			how = "_direct"
+		}
+		cls["vulnerable_node_"+f] = true
+		cls["vulnerable_node_"+f+how] = true
+		if p, ok := ix.Package(n.Version.Name); ok {
+			for _, v := range p.Versions {
+				if v.V.Compare(nv) >= 0 {
+					break
+				}
+				clean := true
+				for _, o := range hit {
+					clean = clean && !universe.Affected(o, eco, p.Name, v.Version)
+				}
+				if clean {
+					cls["vulnerable_node_"+f+"_with_lower_unaffected_version"] = true
+					cls["vulnerable_node_"+f+how+"_with_lower_unaffected_version"] = true
+					break
+				}
+			}
+		}
+	}
 }
 
 func cmpStr(a, b string) int {
@@ -605,6 +693,12 @@ func propC11Update(c c11Case) (ev.Outcome, error) {
 			if !haveCur {
 				cls["dontcare_base_undefined"] = true
 				continue
+			}
+			if f := cur.FlavourName(); f != "" {
+				cls["requirement_selects_"+f] = true
+			}
+			if f := to.FlavourName(); f != "" {
+				cls["update_to_"+f] = true
 			}
 			d := universe.Classify(cur, to)
 			cls["decided_"+d.String()] = true
